@@ -8,7 +8,25 @@ import Kapture.Model.C12
 
 open Lean Kapture Kapture.Driver Kapture.C12
 
+/-- request {"members":[[name,"data",[id]] | [name,"hard",target] | [name,"sym",target]...]} : what every name reads back -/
+def handleLinks (j : Json) : Json :=
+  let ms : LArchive := (((field? j "members").bind getArr?).getD #[]).toList.filterMap (fun e => do
+    let e ← getArr? e
+    let n ← e[0]? >>= getStr?
+    let k ← e[1]? >>= getStr?
+    match k with
+    | "data" => some (n, Member.data ((← e[2]? >>= getArr?).toList.filterMap getNat?))
+    | "hard" => some (n, Member.hard (← e[2]? >>= getStr?))
+    | "sym" => some (n, Member.sym (← e[2]? >>= getStr?))
+    | _ => none)
+  let ns := ((ms.map (·.1)).eraseDups).toArray.qsort (· < ·)
+  Json.mkObj [("reads", Json.arr (ns.map (fun n => Json.arr #[Json.str n,
+    match readL ms n with
+    | some b => Json.arr (b.map (fun (x : Nat) => intJson (Int.ofNat x))).toArray
+    | none => Json.null])))]
+
 def handle (j : Json) : Json :=
+  if (field? j "members").isSome then handleLinks j else
   let appends : Archive := (((field? j "appends").bind getArr?).getD #[]).toList.filterMap (fun e => do
     let e ← getArr? e
     some ((← e[0]? >>= getStr?), ((← e[1]? >>= getArr?).toList.filterMap getNat?)))
